@@ -101,8 +101,10 @@ AtomsOf(lx) == [i \in 1..Len(lx) |-> lx[i].a]
 GoodInt == [d \in {"0", "7", "007", "1e3", "40056", "65535", "-3", "9223372036854775807", "-9223372036854775808"} |->
              CASE d = "007" -> "7" [] d = "1e3" -> "1000" [] OTHER -> d]
 BadInt == {"9223372036854775808", "-9223372036854775809", "1.5"}
+(* the value of a lexeme sequence: its atoms, the two-character template openers written out *)
+Val(lx) == FlattenSeq([i \in 1..Len(lx) |-> IF lx[i].a = "dolob" THEN <<"dol", "ob">> ELSE IF lx[i].a = "pctob" THEN <<"pct", "ob">> ELSE <<lx[i].a>>])
 IsStr(sv) == sv.f \in {"q", "h"}
-StrOf(sv) == IF sv.f = "h" THEN AtomsOf(sv.lx) \o <<"nl">> ELSE AtomsOf(sv.lx)
+StrOf(sv) == IF sv.f = "h" THEN Val(sv.lx) \o <<"nl">> ELSE Val(sv.lx)
 (* "ok": the value fits the attribute kind, "bad": it cannot be converted to it *)
 Class(k, sv) ==
   CASE k = "str"  -> IF IsStr(sv) THEN "ok" ELSE IF sv.f \in {"l", "m"} THEN "bad" ELSE "unspec"
@@ -123,7 +125,7 @@ Denote(k, sv) ==
     [] k = "int"  -> [t |-> "int", v |-> GoodInt[sv.d]]
     [] k = "bool" -> [t |-> "bool", v |-> sv.v]
     [] k = "list" -> [t |-> "list", v |-> [i \in 1..Len(sv.items) |-> StrOf(sv.items[i])]]
-    [] k = "map"  -> [t |-> "map", v |-> [i \in 1..Len(sv.pairs) |-> <<AtomsOf(sv.pairs[i].k.lx), StrOf(sv.pairs[i].v)>>]]
+    [] k = "map"  -> [t |-> "map", v |-> [i \in 1..Len(sv.pairs) |-> <<Val(sv.pairs[i].k.lx), StrOf(sv.pairs[i].v)>>]]
 CountNl(lx) == Cardinality({i \in 1..Len(lx) : lx[i].a = "nl"})
 Lines(sv) == CASE sv.f = "h" -> 3 + CountNl(sv.lx)
                [] sv.f = "l" /\ sv.ml -> 2 + Len(sv.items)
@@ -160,7 +162,7 @@ Opened(S, t, labels, ln) ==
                 inst == top.inst \o "/" \o t \o (IF def.multi THEN "[" \o ToString(idx) \o "]" ELSE "")
                 zeros == [p \in {Path(inst, n) : n \in AttrNames(t)} |-> Zero(AttrDef(t, CHOOSE n \in AttrNames(t) : Path(inst, n) = p).kind)]
                 labs == [p \in {Path(inst, def.labels[i]) : i \in 1..Len(labels)} |->
-                          [t |-> "str", v |-> AtomsOf(labels[CHOOSE i \in 1..Len(labels) : Path(inst, def.labels[i]) = p].lx)]]
+                          [t |-> "str", v |-> Val(labels[CHOOSE i \in 1..Len(labels) : Path(inst, def.labels[i]) = p].lx)]]
             IN [S EXCEPT !.stack = Append([@ EXCEPT ![Len(@)].kids[t] = idx], Frame(t, inst, ln, FALSE)),
                          !.cfg = @ @@ zeros @@ labs,
                          !.assigned = @ \cup DOMAIN labs,
@@ -191,7 +193,8 @@ WellSpelled(sv) ==
   CASE sv.f = "q" -> LegalLx("q", sv.lx)
     [] sv.f = "h" -> LegalLx("h", sv.lx)
     [] sv.f = "id" -> Len(sv.lx) > 0 /\ \A i \in 1..Len(sv.lx) : sv.lx[i].s = "raw" /\ sv.lx[i].a \in {"z", "b", "x", "n"}
-    [] sv.f = "l" -> \A i \in 1..Len(sv.items) : sv.items[i].f = "q" => LegalLx("q", sv.items[i].lx)
+    [] sv.f = "l" -> /\ \A i \in 1..Len(sv.items) : sv.items[i].f = "q" => LegalLx("q", sv.items[i].lx)
+                     /\ (sv.tr => Len(sv.items) > 0)              \* "[,]" is not a list
     [] sv.f = "m" -> \A i \in 1..Len(sv.pairs) : /\ sv.pairs[i].k.f \in {"q", "id"} /\ sv.pairs[i].v.f = "q"
                                                  /\ LegalLx("q", sv.pairs[i].v.lx)
                                                  /\ (sv.pairs[i].k.f = "q" => LegalLx("q", sv.pairs[i].k.lx))
